@@ -54,6 +54,36 @@ def _make_sources(td, layout, rng=None, exts=None):
             w.fp = None
             intact.append(recs)
             continue
+        if spec.endswith("^"):
+            # a frame in the middle that is well-formed msgpack but of a foreign extension type: the decoder raises a plain Exception; what stands in front of it is intact
+            import struct
+
+            import msgpack
+
+            from flow.record.stream import RecordStreamWriter
+
+            path = os.path.join(td, f"src{si}.records")
+            paths.append(path)
+            A, B = _descs()
+            recs, chunks = [], []
+            for kind in spec[:-1]:
+                r = A(n=k, s=f"s{k}", ts=T1, ts2=T2, _generated=GEN) if kind == "A" else B(n=k, t=f"t{k}", _generated=GEN)
+                k += 1
+                recs.append(r)
+            buf = io.BytesIO()
+            w = RecordStreamWriter(buf)
+            w.write(recs[0])
+            w.flush()
+            first = buf.getvalue()
+            for r in recs[1:]:
+                w.write(r)
+            w.flush()
+            rest = buf.getvalue()[len(first):]
+            w.fp = None
+            body = msgpack.packb(msgpack.ExtType(5, b"not ours"))
+            open(path, "wb").write(first + struct.pack(">I", len(body)) + body + rest)
+            intact.append(recs[:1])
+            continue
         path = os.path.join(td, f"src{si}.records{ext}")
         paths.append(path)
         if spec == "missing":
